@@ -3,7 +3,8 @@
 import json, os, sys, subprocess
 V = os.path.dirname(os.path.dirname(os.path.abspath(__file__)))
 sys.path.insert(0, os.path.join(V, "bin"))
-from checkcfg import PROPS, HOOK_COMMITS
+from checkcfg import PROPS
+HOOK_COMMITS = subprocess.check_output(['git','-C','/repo','log','--format=%h','--grep=^verif hooks']).decode().split()[::-1]
 ids = [json.loads(l)["id"] for l in open(os.path.join(V, "properties.jsonl"))]
 checks = []
 for pid in ids:
